@@ -3,6 +3,7 @@ and the Lean model of the glue."""
 import hashlib
 
 from ..framework import Prop, mk, guarded, ensure_repo_on_path
+from . import c13_hist as H
 
 CHAINS = ('mainnet', 'testnet', 'signet', 'regtest')
 N = 0xFFFFFFFFFFFFFFFFFFFFFFFFFFFFFFFEBAAEDCE6AF48A03BBFD25E8CD0364141
@@ -94,6 +95,19 @@ def variant(v, h, h2, r, s, ra, sa):
     ][v]
 
 
+def hist_shrinks(c):
+    """drop one step (never a creation step a later step refers to), longest histories first"""
+    steps = c['args'][0].split('|')
+    for i in range(len(steps) - 1, -1, -1):
+        t = steps[i].split(' ')
+        made = t[1] if t[0] in ('K', 'P', 'G', 'R', 'D', 'M') else None
+        rest = steps[:i] + steps[i + 1:]
+        if made is not None and any(made in x.split(' ')[1:] for x in rest):
+            continue
+        if rest:
+            yield mk(c['op'], '|'.join(rest), tag=c.get('tag', ''))
+
+
 class C13(Prop):
     id = 'C13'
     title = 'Keys: pubkey derivation, WIF round trip, ECDSA sign/verify match secp256k1'
@@ -120,7 +134,10 @@ class C13(Prop):
     rule = ('secrets {1,2,3,n-1,n-2,n-3,n/2,..., leading-zero, random} x both compressions x 4 chains (key + WIF); '
             'signatures over digests {00,ff,n,n+1,>=n,random}; 16-variant verification matrix per signature; '
             'Lean-signed signatures verified by the library; 33/65-byte keys on/off curve, hybrid, bad prefix, x>=p; '
-            'IsLowDERSignature/CompareBigEndian/signature_to_low_s on boundary S values, truncations and random bytes')
+            'IsLowDERSignature/CompareBigEndian/signature_to_low_s on boundary S values, truncations and random bytes; '
+            'histories on live objects (bitcoin.* re-imported per history): 2..4 CPubKey from bytes (compressed/'
+            'uncompressed/hybrid/invalid) and 2..4 secrets used in interleaved order, sig_i x pub_j matrix, verify after '
+            'an invalid key was parsed, double signing; WIF/addresses while every chain is selected after every other')
 
     def setup(self):
         ensure_repo_on_path()
@@ -134,6 +151,13 @@ class C13(Prop):
     def generate(self, rng, tier, shard, nshards):
         big = tier == 'thorough'
         i = 0
+        # (h) histories on live objects: several CPubKey / CBitcoinSecret objects used in interleaved order,
+        #     and WIF / addresses across chain switches (every chain selected after every other)
+        mat = H.key_material(self, rng, 12)
+        for _ in range(40 if big else 5):
+            yield mk('c13.hist', '|'.join(H.gen_pub_history(rng, mat)), tag='hist-pubkeys')
+        for _ in range(10 if big else 2):
+            yield mk('c13.hist', '|'.join(H.gen_chain_history(rng, mat)), tag='hist-chains')
         nkeys = 6000 if big else 300
         secs = secrets(rng.__class__('c13-secrets-%s' % tier), nkeys)   # same list in every shard
         mine = [(j, s) for j, s in enumerate(secs) if j % nshards == shard]
@@ -290,6 +314,13 @@ class C13(Prop):
     def impl(self, c):
         op, a = c['op'], c['args']
         W, K, SC = self.W, self.K, self.SC
+        if op == 'c13.hist':
+            c['aux'] = []
+
+            def f():
+                out, c['aux'] = H.run_hist(self, a[0])
+                return out
+            return guarded(f)
         try:
             if op == 'c13.key':
                 def f():
@@ -359,6 +390,8 @@ class C13(Prop):
 
     def model_line(self, c):
         op, a = c['op'], c['args']
+        if op == 'c13.hist':
+            return '\t'.join(['c13.hist', a[0]] + list(c.get('aux', [])))
         if op == 'c13.sign':
             return '\t'.join(['c13.signcheck', a[0], a[1], a[2]] + list(c.get('aux', ['00'])))
         if op == 'c13.matrix':
@@ -369,4 +402,5 @@ class C13(Prop):
         return not io.startswith('err:') or c['op'] in ('c13.isLowDer', 'c13.wifparse')
 
     def shrink_candidates(self, c):
-        return iter(())
+        if c['op'] == 'c13.hist':
+            yield from hist_shrinks(c)
